@@ -6,10 +6,12 @@ import SuxModel.RankSel.RankSmall.Model
 import SuxModel.RankSel.Select9.Model
 import SuxModel.RankSel.Small.Model
 import SuxModel.RankSel.Adapt.Model
+import SuxModel.RankSel.Sparse
 /-!
 # Protocol runner `ranksel` (C01, C02, C12)
 
-`bits <len> <[words]>`, `build <sid> <p1> <p2>`, then queries.  Structures whose builder / query
+`bits <len> <[words]>` or `bits_sparse <len> <nwords> <fill> <[flipped positions]>` (huge vectors, see
+`Sparse.lean`), `build <sid> <p1> <p2>`, then queries.  Structures whose builder / query
 algorithm is modelled answer through the model (see `SuxModel/RankSel/*`); the others answer through
 the specification (fast evaluation below), and reply `unmodelled` to `parts`.
 -/
@@ -71,6 +73,10 @@ structure RSt where
   ones : Array Nat := #[]
   zeros : Array Nat := #[]
   built : Option (String × Nat × Nat) := none
+  /-- set by `bits_sparse`: `ones` / `zeros` are not materialised, `n1` is the number of ones, and the
+  layers come from `Sparse.modelOf` (same builders and queries, digest `parts`) -/
+  sparse : Bool := false
+  n1 : Nat := 0
   layers : List (Option LayerModel) := []
 
 def fmtOutNat (o : Out Nat) : String :=
@@ -88,6 +94,10 @@ def mkBits (len : Nat) (ws : Array Nat) : RSt :=
     ones := idx.filter (fun k => bitAt 64 ws k),
     zeros := idx.filter (fun k => !bitAt 64 ws k) }
 
+def mkSparse (len nw : Nat) (fill : Bool) (flips : Array Nat) : RSt :=
+  { len := len, words := Sparse.mkWords nw fill flips, sparse := true,
+    n1 := Sparse.numOnesOf len fill flips }
+
 def fmtO (o : Option Nat) : String := match o with | some v => s!"ok {v}" | none => "ok none"
 
 def step (r : RSt) (toks : List String) : RSt × String :=
@@ -96,11 +106,18 @@ def step (r : RSt) (toks : List String) : RSt × String :=
   | ["case", _] => ({}, "case")
   | ["bits", len, ws] => match parseNat len, parseNatList ws with
     | some len, some ws => (mkBits len ws.toArray, "ok") | _, _ => bad
+  | ["bits_sparse", len, nw, fill, flips] =>
+    match parseNat len, parseNat nw, parseBool fill, parseNatList flips with
+    | some len, some nw, some fill, some flips =>
+      let flips := flips.toArray
+      if len ≤ 64 * nw && Sparse.flipsOK flips (64 * nw) then (mkSparse len nw fill flips, "ok") else bad
+    | _, _, _, _ => bad
   | ["build", sid, p1, p2] => match capsOf sid, parseNat p1, parseNat p2 with
     | some _, some p1, some p2 =>
       let ls := (layersOf sid p1 p2).getD []
       ({ r with built := some (sid, p1, p2),
-                layers := ls.map (modelOf r.words r.len r.ones.size) }, "ok")
+                layers := if r.sparse then Sparse.modelsOf r.words r.len r.n1 ls
+                          else ls.map (modelOf r.words r.len r.ones.size) }, "ok")
     | _, _, _ => bad
   | q :: args =>
     match r.built with
@@ -109,8 +126,8 @@ def step (r : RSt) (toks : List String) : RSt × String :=
       match capsOf sid with
       | none => bad
       | some c =>
-        let n1 := r.ones.size
-        let n0 := r.zeros.size
+        let n1 := if r.sparse then r.n1 else r.ones.size
+        let n0 := if r.sparse then r.len - r.n1 else r.zeros.size
         match q, args with
         | "rank", [p] => match parseNat p with
           | some p => (r, if c.rank then
